@@ -270,6 +270,24 @@ pub mod interop {
 	}
 }
 
+/// Verification hooks, compiled only under `--cfg jrsonnet_verif`.
+/// Read-only accessors, no behaviour change.
+#[cfg(jrsonnet_verif)]
+pub mod verif {
+	use crate::POOL;
+
+	/// Number of distinct contents currently held by the thread-local pool
+	#[must_use]
+	pub fn pool_len() -> usize {
+		POOL.with(|pool| pool.borrow().len())
+	}
+	/// Is the given content currently pooled
+	#[must_use]
+	pub fn pool_contains(bytes: &[u8]) -> bool {
+		POOL.with(|pool| pool.borrow().keys().any(|k| k.as_slice() == bytes))
+	}
+}
+
 #[must_use]
 pub fn intern_bytes(bytes: &[u8]) -> IBytes {
 	POOL.with(|pool| {
